@@ -1,9 +1,125 @@
-(* C17 — Service survives any failure sequence: reconnects, resubscribes, keeps futures. *)
-From Coq Require Import List NArith.
-From GM Require Import Base.Lts Codec.Packet Client.Service Client.ServiceSpec Client.ServiceProofs.
+(* C17 — Service survives any failure sequence: reconnects, resubscribes, keeps futures.
+   Statements over every accepted trace of the service monitor SV (Client/Service.v):
+   `run step (init c) es = Some s` — c is the queue capacity, es any event sequence the monitor accepts
+   (API calls from arbitrary goroutines, supervisor steps, client-side events, in any interleaving).
+   Only statements, `exact`, and Print Assumptions. *)
+From Coq Require Import List NArith Sorted.
+From Coq.Strings Require Import Byte.
+From GM Require Import Base.Lts Codec.Packet Client.Service Client.ServiceSpec Client.ServiceProofs Client.ServiceStop
+  Client.ServiceFutures Client.ServiceSet Client.ServiceTheorems.
 Import ListNotations.
 Open Scope N_scope.
 
-Theorem C17_placeholder : forall c, reach c (init c).
-Proof. exact reach_init. Qed.
-Print Assumptions C17_placeholder.
+(* every resubscribe request equals sort (entries (fold apply (dispatched subscribe/unsubscribe commands so far) ∅)),
+   and is THE strictly sorted list holding exactly the topics subscribed after those commands (last qos wins) *)
+Theorem C17_resub_set : forall c es s id l ok s',
+  run step (init c) es = Some s -> step s (EResubSend id l ok) = Some s' ->
+  l = spec_resub (map snd (dispatched s)) /\ is_resub_of (map snd (dispatched s)) l.
+Proof. exact resub_set_thm. Qed.
+Print Assumptions C17_resub_set.
+
+(* ... and once the queue has drained, that is the set resulting from ALL calls accepted into the queue, in order *)
+Theorem C17_resub_set_drained : forall c es s,
+  run step (init c) es = Some s ->
+  resub_list (subs s) = spec_resub (map snd (dispatched s)) /\
+  (drained s = [] -> queue s = [] ->
+   resub_list (subs s) = spec_resub (map snd (issued s)) /\ is_resub_of (map snd (issued s)) (resub_list (subs s))).
+Proof. exact resub_set_drained_thm. Qed.
+Print Assumptions C17_resub_set_drained.
+
+(* the specification determines the request *)
+Theorem C17_resub_unique : forall bs r r', is_resub_of bs r -> is_resub_of bs r' -> r = r'.
+Proof. exact is_resub_unique. Qed.
+Print Assumptions C17_resub_unique.
+
+(* commands are dispatched in the order queued (dispatched ++ queue is a subsequence of the issue history, which is
+   numbered increasingly; equal to it unless Stop(true) drained the queue); a command is dispatched only by a dispatcher
+   entered after a successful connect + resubscribe, one queued while offline by a dispatcher entered strictly later *)
+Theorem C17_fifo : forall c es s, run step (init c) es = Some s -> fifo_order s /\ offline_waits s.
+Proof. exact fifo_thm. Qed.
+Print Assumptions C17_fifo.
+
+(* what "dispatcher entered" means, and that only a running dispatcher hands commands to the client *)
+Theorem C17_fifo_dispatcher : forall c es s e s',
+  run step (init c) es = Some s -> step s e = Some s' ->
+  (ready s' = ready s \/
+   (ready s' = ready s + 1 /\ sp s' = SDispatch /\
+    ((exists b, e = EOnline b /\ sp s = SConnecting /\ resub_list (subs s) = []) \/
+     (exists id, e = EAck id /\ sp s = SResubWait id /\ store_get id (store s) = Some SResub)))) /\
+  (forall id b ok, e = EDispSend id b ok -> sp s = SDispatch) /\
+  (forall k, e = EDispErr k -> sp s = SDispatch \/ exists n, sp s = SDispFailing n k).
+Proof. exact dispatcher_thm. Qed.
+Print Assumptions C17_fifo_dispatcher.
+
+(* a command future is completed only by the acknowledgement of the request it was attached to (through the shared
+   store, on whatever connection the acknowledgement arrives; a QoS 0 publish by its successful send), cancelled only by
+   a failed dispatch, a queue timeout, the cancellation of the client future it is attached to, Stop(true), or by being
+   replaced in the store by a newer request with the same packet id; once resolved it never changes *)
+Theorem C17_futures : forall c es s e s' n,
+  run step (init c) es = Some s -> step s e = Some s' ->
+  (forall st, fut_get n (futs s) = Some FPending -> fut_get n (futs s') = Some st -> st <> FPending -> explains s e n st) /\
+  (forall st, fut_get n (futs s) = Some st -> st <> FPending -> fut_get n (futs s') = Some st) /\
+  (fut_get n (futs s) <> None -> fut_get n (futs s') <> None) /\
+  (forall id, store_get id (store s') = Some (SCmd n) ->
+     store_get id (store s) = Some (SCmd n) \/
+     exists b b', e = EDispSend id b true /\ dispatching s n b' /\ body_eqb b b' = true /\ is_qos0 b' = false).
+Proof. exact futures_thm. Qed.
+Print Assumptions C17_futures.
+
+(* quiescence: when Stop returns the supervisor has ended; with clear = true no command future is pending (queued ones
+   included); Start afterwards is enabled and yields a fresh supervisor *)
+Theorem C17_stop : forall c es s s',
+  run step (init c) es = Some s -> step s (EStopRet true) = Some s' ->
+  sp s = SEnded /\ sp s' = SIdle /\ ap s' = ANone /\ started s' = false /\ dying s' = false /\
+  (ap s = AStop true true ->
+     (forall n st, fut_get n (futs s') = Some st -> st <> FPending) /\ queue s' = [] /\ store s' = []) /\
+  (ap s = AStop false true -> futs s' = futs s /\ queue s' = queue s /\ store s' = store s) /\
+  (exists s'', step s' EStartCall = Some s'' /\ sp s'' = STop true /\ started s'' = true /\ ap s'' = AStart true /\
+               kill s'' = false /\ dying s'' = false /\ gen s'' = gen s' + 1).
+Proof. exact stop_thm. Qed.
+Print Assumptions C17_stop.
+
+(* no supervisor exists while the service is stopped *)
+Theorem C17_stop_no_supervisor : forall c es s,
+  run step (init c) es = Some s -> (sp s = SIdle <-> (started s = false /\ stopping s = false)).
+Proof. exact no_supervisor_when_stopped. Qed.
+Print Assumptions C17_stop_no_supervisor.
+
+(* why Stop(true) reaches every pending future: it is held by a blocked caller, the queue, the dispatcher, or the store *)
+Theorem C17_pending_held : forall c es s n,
+  run step (init c) es = Some s -> fut_get n (futs s) = Some FPending -> In n (holders s).
+Proof. exact pending_held. Qed.
+Print Assumptions C17_pending_held.
+
+(* ---- non-vacuity: accepted traces that exercise the hypotheses *)
+
+Definition ta : topic := [x61].
+Definition tb : topic := [x62].
+Definition msg1 : message := Msg [x74] [x31] 1 false.
+
+(* start; subscribe b, a (a's SUBACK, id 2, never arrives); connection lost; reconnect with restarted packet ids;
+   resubscribe [a; b] under id 2 replaces the pending future of a; acknowledged; a command queued while offline is
+   dispatched; Stop(true) cancels what is attached and what is queued *)
+Definition trace1 : list event :=
+  [EStartCall; EStartRet true; ENext; EOnline false;
+   ECmdCall (BSub [(tb, 0)]); ECmdRet; EDispSend 1 (BSub [(tb, 0)]) true; EAck 1;
+   ECmdCall (BSub [(ta, 1)]); ECmdRet; EDispSend 2 (BSub [(ta, 1)]) true;
+   EKill; EOffline; EBackoff; ECmdCall (BPub msg1); ECmdRet; ENext; EOnline false].
+
+Example C17_nonvacuous_resub :
+  exists s s', run step (init 4) trace1 = Some s /\ step s (EResubSend 2 [(ta, 1); (tb, 0)] true) = Some s' /\
+               spec_resub (map snd (dispatched s)) = [(ta, 1); (tb, 0)] /\
+               fut_get 1 (futs s') = Some (FCancelled CReplaced).
+Proof. eexists; eexists. split; [vm_compute; reflexivity|]. split; vm_compute; split; reflexivity. Qed.
+
+Definition trace2 : list event :=
+  trace1 ++ [EResubSend 2 [(ta, 1); (tb, 0)] true; EAck 2; EDispSend 3 (BPub msg1) true;
+             ECmdCall (BUnsub [tb]); ECmdRet; EStopCall true; EDisconnect; EOffline].
+
+Example C17_nonvacuous_stop :
+  exists s s', run step (init 4) trace2 = Some s /\ step s (EStopRet true) = Some s' /\
+               ap s = AStop true true /\
+               futs s = [(0, FCompleted 1); (1, FCancelled CReplaced); (2, FPending); (3, FPending)] /\
+               futs s' = [(0, FCompleted 1); (1, FCancelled CReplaced); (2, FCancelled CStopClear); (3, FCancelled CStopClear)] /\
+               dtags s = [(0, 1); (1, 1); (2, 2)] /\ ready s = 2.
+Proof. eexists; eexists. split; [vm_compute; reflexivity|]. vm_compute. repeat split. Qed.
